@@ -349,6 +349,23 @@ def run(ctx):
         if v:
             fails.append({"cfg": list(cfg), "wiring": wiring, "m0": 1000, "seq": seq, "violation": v})
     ctx.count("fine_approach_sequences", len(fine))
+    # ---- nothing but failures: the reference never answers, or always answers with the invalid value; loop() every 250 ms
+    # for the whole back-off and three more sync periods (the retry period must double up to the sync period and then STAY
+    # there) ----
+    for cfg in ((7, 1, 100), (16, 2, 500), (8, 1, 100), (10, 3, 100)):
+        for ready, value in ((False, 0), (True, I32MIN)):
+            total = 0
+            p_ = cfg[1]
+            while p_ < cfg[0]:
+                total += p_
+                p_ *= 2
+            nsteps = (total + 5 * cfg[0]) * 4
+            seq = [(250, ready, value)] * nsteps
+            v, ck = run_sequence(drv, cfg, 1, 1000, seq)
+            ctx.evaluations += len(seq)
+            ctx.count("failure_only_sequences")
+            if v:
+                fails.append({"cfg": list(cfg), "wiring": 1, "m0": 1000, "seq": seq, "violation": v})
     # ---- sync periods above 32767 s (the full uint16 range of the constructor argument): a success, the whole period in
     # 60 s steps, a failed re-sync, and the period again; the retry after the failure must wait for the sync period ----
     for cfg in ((40000, 5, 1000), (65535, 5, 1000)):
